@@ -443,10 +443,11 @@ Definition logical (ins : list input) : list (nat * list string) := map logical_
 
 (* proposed repair C11-1 of read_data:
        if not line_is_comment:
-           continue_input = line.split("$")[0].rstrip().endswith(" &")
+           continue_input = "$" not in line and line.rstrip().endswith(" &")
    instead of   continue_input = line.endswith(" &\n")   evaluated on every line *)
 Definition amp_data (line' : string) : bool :=
-  ends_with (String sp (String "&"%char "")) (rstrip (spec_data line')).
+  andb (negb (contains "$"%char line'))
+       (ends_with (String sp (String "&"%char "")) (rstrip line')).
 Definition amp_nl (line' : string) : bool :=
   ends_with (String sp (String "&"%char (String nl ""))) line'.
 
@@ -498,7 +499,7 @@ Definition read_lines_fix (w : nat) (f : list string) : obs :=
 
 (* the files on which the current continue_input computation agrees with the repaired one (cleaned lines):
    no comment line ends in " &" or follows (directly or after other comment lines) a line continued by '&',
-   a data line ends in " &" + LF exactly when its data (before '$', trailing blanks dropped) ends in " &",
+   a data line ends in " &" + LF exactly when it has no '$' and, trailing blanks dropped, ends in " &",
    and no block ends with a continued line *)
 Fixpoint amp_tidy_from (w : nat) (cont : bool) (ls : list string) : bool :=
   match ls with
